@@ -25,8 +25,27 @@ func VerifC16_Dedup() {
 	ctx := context.Background()
 	r := &Repository{idx: index.NewMasterIndex()}
 	r.opts.NoExtraVerify = true
-	// the index never becomes "full" (by size or age) during the session: saving index files is C11's subject
-	index.Full = func(*index.Index) bool { return false }
+	// an index may become "full" at any StorePack: it is then finalized and uploaded (Index.SaveIndex,
+	// stubbed: JSON encoding is reflection) while other goroutines keep saving blobs, and only merged
+	// into the main index afterwards
+	fullBudget := 1 // at most one index becomes full during the scenario
+	index.Full = func(*index.Index) bool {
+		if fullBudget > 0 && verifrt.Bool("indexFull") {
+			fullBudget--
+			return true
+		}
+		return false
+	}
+	nidx := 0
+	verifrt.Stub("(*internal/repository/index.Index).SaveIndex", func(idx *index.Index, _ context.Context, _ restic.SaverUnpacked[restic.FileType]) (restic.ID, error) {
+		verifrt.Yield() // the upload takes time
+		nidx++
+		id := restic.ID{0x1d, byte(nidx)}
+		if err := idx.SetID(id); err != nil {
+			verifrt.Assert(false, "index saved twice")
+		}
+		return id, nil
+	})
 
 	// content byte 2 is already in the loaded index
 	pre := restic.Hash([]byte{2})
